@@ -82,7 +82,7 @@ def r1_start_char(ctx):
                 ok = T.valid_iff([], code, exact)
                 how = 'exact recurrence'
             if v == 'Union':
-                ok = len(byv[v]) == 1 and code[0] == 'quant' and code[1] == 'any' and code[2] == ch(0) and code[4] == S(('elem', ch(0), code[3]))
+                ok = code[0] == 'quant' and code[1] == 'any' and (code[2] == ch(0) or code[2] == ('range', I(0), T.typed(('len', ch(0)), 'usize'))) and code[4] == S(('elem', ch(0), code[3]))
                 how = 'exists over operands'
             if not ok and any(T.valid_iff([], code, dl) for dl in delegation(e)):
                 ok = True
